@@ -3,9 +3,9 @@
 import sys, os, json, shutil, re
 ID, K = sys.argv[1], sys.argv[2]
 caught = sys.argv[3] if len(sys.argv) > 3 else ''
-RND = {'round2': 2, 'round3': 3, 'round4': 4, 'round5': 5, 'round6': 6}.get(sys.argv[4] if len(sys.argv) > 4 else '', 1)
+RND = {'round2': 2, 'round3': 3, 'round4': 4, 'round5': 5, 'round6': 6, 'round7': 7}.get(sys.argv[4] if len(sys.argv) > 4 else '', 1)
 src = f'/tmp/seed{RND}_{ID}_out' if RND > 1 else f'/tmp/seed_{ID}_out'
-dst = f'/verif/seeded/{ID}-{int(K)+2*(RND-1)}'
+dst = f'/verif/seeded/{ID}-{int(K)+2*(RND-1)+(1 if RND >= 7 else 0)}'   # round 6 stored an extra C05-13
 log = open(f'/root/scratch/seedverify/{ID}_r{RND}_{K}.log' if RND > 1 else
            f'/root/scratch/seedverify/{ID}_{K}.log').read()
 def g(pat):
